@@ -11,6 +11,7 @@ pub mod validation;
 pub mod transpose;
 pub mod stamql;
 pub mod webanno;
+pub mod concurrent;
 
 pub fn run(family: &str, opts: &Opts) -> Option<Report> {
     // "family@m<interval>s<0|1>" runs the family under a store configuration variant
@@ -44,6 +45,7 @@ fn run_base(family: &str, opts: &Opts) -> Option<Report> {
         "transpose" => Some(transpose::run(opts)),
         "stamql" => Some(stamql::run(opts)),
         "webanno" => Some(webanno::run(opts)),
+        "concurrent" => Some(concurrent::run(opts)),
         _ => None,
     }
 }
